@@ -1032,6 +1032,12 @@ func (env *specEnv) region(items []ast.Expr, all bool) *Region {
 				case "mapAt":
 					r.addCell(u, env.mapCell(call.Args[0], call.Args[1]), types.NewInterfaceType(nil, nil))
 					continue
+				case "ghostAll": // the ghost field of that name on every object
+					fid := env.ghostField(call.Args[0])
+					for _, k := range []string{"bv64", "bool"} {
+						r.add(k, func(a *Term) *Term { return c.FldIdIs(a, fid) })
+					}
+					continue
 				case "disk":
 					cell := env.diskCell(call.Args[0])
 					r.setRoot(cell); r.add("bv64", func(a *Term) *Term { return c.Eq(a, cell) })
